@@ -323,3 +323,51 @@ Proof.
     destruct Hq as [Hq Hk]. apply andb_prop in Hq. destruct Hq as [Hm Hn].
     apply N.eqb_eq in Hm, Hn. apply acc_eqb_eq in Hk. subst. exists b. auto.
 Qed.
+
+(** ** Path version of (iii): with nodes in program order, if every access by a node in [m, n]
+    is a read, then no path of memory edges leads from [m] to [n]. *)
+From Coq Require Import Sorted.
+
+Definition nodes_sorted (H : list (N * acc)) : Prop := StronglySorted N.le (map fst H).
+
+Lemma pairs_sorted H m a n b :
+  nodes_sorted H -> In ((m, a), (n, b)) (pairs H) -> (m <= n)%N.
+Proof.
+  unfold nodes_sorted. induction H as [|[x c] t IH]; cbn [pairs map]; intros Hs Hin; [contradiction|].
+  inversion Hs as [|? ? Hs' Hall]; subst. apply in_app_or in Hin. destruct Hin as [Hin | Hin].
+  - apply in_map_iff in Hin. destruct Hin as [[y d] [Heq Hy]]. inversion Heq; subst.
+    rewrite Forall_forall in Hall. apply Hall. apply in_map_iff. exists (n, b). auto.
+  - auto.
+Qed.
+
+Theorem queue_edges_forward init l m n k :
+  init_ok init -> nodes_sorted (history init l) -> In (m, n, k) (edges init l) -> (m < n)%N.
+Proof.
+  intros Hi Hs Hin. destruct (queue_edges_justified init l m n k Hi Hin) as [Hne [b [Hp _]]].
+  pose proof (pairs_sorted _ _ _ _ _ Hs Hp). lia.
+Qed.
+
+Definition reads_between (H : list (N * acc)) (m n : N) : Prop :=
+  forall x a, In (x, a) H -> (m <= x <= n)%N -> a = AR.
+
+Theorem queue_reads_no_path init l m n :
+  init_ok init -> nodes_sorted (history init l) -> reads_between (history init l) m n ->
+  ~ clos_trans N (erel (edges init l)) m n.
+Proof.
+  intros Hi Hs Hrb Hpath. apply clos_trans_t1n in Hpath.
+  assert (Hfwd : forall x y, clos_trans_1n N (erel (edges init l)) x y -> (x < y)%N).
+  { intros x y Hxy. induction Hxy as [x y [k Hk] | x y z [k Hk] _ IH].
+    - eapply queue_edges_forward; eauto.
+    - pose proof (queue_edges_forward init l x y k Hi Hs Hk). lia. }
+  assert (Hfirst : exists x k, In (m, x, k) (edges init l) /\ (x <= n)%N).
+  { inversion Hpath as [y [k Hk] | y z [k Hk] Hrest]; subst.
+    - exists n, k. split; [exact Hk | lia].
+    - exists y, k. split; [exact Hk|]. apply Hfwd in Hrest. lia. }
+  destruct Hfirst as [x [k [Hk Hx]]].
+  pose proof (queue_edges_forward init l m x k Hi Hs Hk) as Hmx.
+  destruct (queue_edges_justified init l m x k Hi Hk) as [_ [b [Hp Hc]]].
+  apply pairs_In_l in Hp. destruct Hp as [H1 H2].
+  assert (k = AR) by (eapply Hrb; [exact H1 | lia]).
+  assert (b = AR) by (eapply Hrb; [exact H2 | lia]).
+  subst. discriminate.
+Qed.
